@@ -123,6 +123,13 @@ def build(ctx):
     t, path = concolic_trace(g, 'tr_Delta', [('d', 'V6')], lambda d: base.trnorm(base.delta2tr(d)),
                              [np.array([0.1, -0.2, 0.3, 0.02, -0.03, 0.05])], sampler=lambda rng: [s_delta(rng)])
     g.paths['pc_Delta'] = ([('d', 'V6')], path)
+    # ---- the other twist kinds of base.trexp: prismatic (w literally zero) and zero twist
+    t, path = concolic_trace(g, 'tr_trexp6_pris', [('v', 'V3')], lambda v: base.trexp(np.r_[v, 0, 0, 0]),
+                             [np.array([0.1, -0.2, 0.3])], sampler=lambda rng: [rng.normal(size=3) * log_uniform(rng, 1e-6, 1e3)])
+    g.paths['pc_trexp6_pris'] = ([('v', 'V3')], path)
+    t, path = concolic_trace(g, 'tr_trexp6_zero', [('s', 'V6')], base.trexp, [np.zeros(6)],
+                             sampler=lambda rng: [np.zeros(6)])
+    g.paths['pc_trexp6_zero'] = ([('s', 'V6')], path)
     return g
 
 
@@ -248,6 +255,11 @@ def ref_trnorm(T):
     out[:3, :3] = Rn
     out[:3, 3] = T[:3, 3]
     return out
+
+
+def ref_tr2delta(T):
+    Rm = T[:3, :3]
+    return np.r_[T[:3, 3], (Rm[2, 1] - Rm[1, 2]) / 2, (Rm[0, 2] - Rm[2, 0]) / 2, (Rm[1, 0] - Rm[0, 1]) / 2]
 
 
 def mp_expm(M, dps=50):
@@ -543,6 +555,179 @@ def oracle(ctx):
 
         except Exception as ex:  # noqa
             section_failed('exp-ad', ex, i)
+    # ---------------- class-level entry points per twist / pose KIND, single- and multi-valued, against the
+    #                  stateless base-level references (the statements of C13_kinds.v / C13_log.v / C13_adjoint.v)
+    def twist_of_kind(kind):
+        v = rng.normal(size=3) * log_uniform(rng, 1e-3, 1e2)
+        w = rand_unit(rng) * rng.uniform(1e-3, math.pi - 1e-3)
+        if kind == 'zero':
+            return np.zeros(6)
+        if kind == 'prismatic':
+            return np.r_[v, 0, 0, 0]
+        if kind == 'prismatic-unit':
+            return np.r_[rand_unit(rng), 0, 0, 0]
+        if kind == 'revolute':                      # unit rotation axis through a point, zero pitch
+            a = rand_unit(rng)
+            return np.r_[-np.cross(a, v), a]
+        if kind == 'revolute-origin':
+            return np.r_[0, 0, 0, w]
+        return np.r_[v, w]                          # general screw
+
+    def ref_exp(S):
+        """independent exponential of [S]: closed form for w = 0, scipy otherwise"""
+        if not np.any(S[3:]):
+            E_ = np.eye(4)
+            E_[:3, 3] = S[:3]
+            return E_
+        return scipy.linalg.expm(ref_hat(S))
+
+    def pose_of_kind(kind):
+        T = np.eye(4)
+        if kind in ('rotation', 'general'):
+            T[:3, :3] = rand_rot(rng)
+        if kind in ('translation', 'general'):
+            T[:3, 3] = rand_trans(rng, 1e-3, 1e3) + (1e-3 if kind == 'translation' else 0)
+        return T
+
+    TW_KINDS = ['zero', 'prismatic', 'prismatic-unit', 'revolute', 'revolute-origin', 'general']
+    POSE_KINDS = ['identity', 'rotation', 'translation', 'general']
+
+    def per_element(key, got, refs, scale, inp, tol=1e-9):
+        """a multi-valued receiver: the method may refuse (raise) but must never return anything other than the
+        per-element values"""
+        try:
+            got = got()
+        except Exception as ex:  # noqa
+            ctx.count(f'info:multi-valued:{key}:raises:{exc_kind(ex)}')
+            return
+        seq = list(got) if isinstance(got, (list, tuple)) or (isinstance(got, np.ndarray) and got.ndim == 3) else None
+        if seq is None or len(seq) != len(refs):
+            ctx.fail(f'oracle:multi-valued:{key}:shape', f"{key} of a {len(refs)}-valued object returns {type(got).__name__} of shape {np.shape(got)}",
+                     {'inputs_hex': hexl(inp)})
+            return
+        for g_, r_ in zip(seq, refs):
+            chk(f'multi-valued:{key}', lambda: (g_), lambda: (r_), scale, inp, tol=tol)
+
+    for k in range(ctx.n(40, 1200)):
+        for kind in TW_KINDS:
+            S = twist_of_kind(kind)
+            nS = max(np.linalg.norm(S), 1e-300)
+            eS = ref_exp(S)
+            AdS = ref_Ad(eS)
+            sct = max(1.0, float(np.linalg.norm(eS[:3, 3])), float(np.linalg.norm(S[:3])))
+            inp = np.r_[TW_KINDS.index(kind), S]
+            tw = Twist3(S.copy())
+            K = 'kind=' + kind
+            chk(f'Twist3.Ad:{K}', lambda: (tw.Ad()), lambda: (AdS), sct, inp, tol=1e-7)
+            chk(f'Twist3.ad:{K}', lambda: (tw.ad()), lambda: (ref_ad(S)), nS, inp)
+            chk(f'Twist3.se3:{K}', lambda: (tw.se3()), lambda: (ref_hat(S)), nS, inp)
+            chk(f'skewa:{K}', lambda: (base.skewa(S)), lambda: (ref_hat(S)), nS, inp)
+            chk(f'Twist3.SE3:{K}', lambda: (tw.SE3().A), lambda: (eS), sct, inp, tol=1e-7)
+            chk(f'Twist3.exp:{K}', lambda: (tw.exp().A), lambda: (eS), sct, inp, tol=1e-7)
+            chk(f'SE3.Exp.Ad:{K}', lambda: (SE3.Exp(S).Ad()), lambda: (AdS), sct, inp, tol=1e-7)
+            chk(f'adjoint(trexp):{K}', lambda: (base.adjoint(base.trexp(S))), lambda: (AdS), sct, inp, tol=1e-7)
+            # exp(ad S) by its series for the nilpotent kinds, by expm otherwise
+            eadS = np.eye(6) + ref_ad(S) if not np.any(S[3:]) else scipy.linalg.expm(ref_ad(S))
+            chk(f'exp-ad=Ad-exp:{K}', lambda: (tw.Ad()), lambda: (eadS), sct, inp, tol=1e-7)
+            chk(f'Ad-exp-fixes-S:{K}', lambda: (tw.Ad() @ S), lambda: (S), sct * nS, inp, tol=1e-7)
+            chk(f'Ad-exp-commutes-ad:{K}', lambda: (tw.Ad() @ tw.ad()), lambda: (tw.ad() @ tw.Ad()), sct * sct * nS, inp, tol=1e-7)
+        for kind in POSE_KINDS:
+            T, T2k = pose_of_kind(kind), pose_of_kind('general')
+            sc = max(1.0, float(np.linalg.norm(T[:3, 3])))
+            sc2 = max(1.0, float(np.linalg.norm(T[:3, 3]) + np.linalg.norm(T2k[:3, 3])))
+            inp = np.r_[POSE_KINDS.index(kind), T.flatten()]
+            X, Y = SE3(T.copy(), check=False), SE3(T2k.copy(), check=False)
+            K = 'kind=' + kind
+            chk(f'SE3.Ad:{K}', lambda: (X.Ad()), lambda: (ref_Ad(T)), sc, inp)
+            chk(f'SE3.jacob:{K}', lambda: (X.jacob()), lambda: (blkdiag(T[:3, :3].T, T[:3, :3].T)), 1.0, inp)
+            chk(f'SE3.inv.Ad:{K}', lambda: (X.inv().Ad()), lambda: (ref_Ad(ref_inv(T))), sc, inp)
+            chk(f'SE3.delta:{K}', lambda: (X.delta(Y)), lambda: (ref_tr2delta(ref_inv(T) @ T2k)), sc2, np.r_[inp, T2k.flatten()])
+            chk(f'SE3.delta-self:{K}', lambda: (X.delta(X)), lambda: (np.zeros(6)), sc, inp)
+            chk(f'SE3.Ad-hom:{K}', lambda: ((X * Y).Ad()), lambda: (ref_Ad(T) @ ref_Ad(T2k)), sc2 * sc2, np.r_[inp, T2k.flatten()])
+        for kind in ['zero', 'translation-only', 'rotation-only', 'general']:
+            d = rand_unit(rng, 6) * log_uniform(rng, 1e-9, 1e-2)
+            if kind == 'zero':
+                d = np.zeros(6)
+            elif kind == 'translation-only':
+                d[3:] = 0
+            elif kind == 'rotation-only':
+                d[:3] = 0
+            inp = d
+            chk(f'SE3.Delta:kind={kind}', lambda: (SE3.Delta(d).A), lambda: (ref_trnorm(np.eye(4) + ref_hat(d))), 1.0, inp, tol=1e-12)
+            chk(f'delta2tr:kind={kind}', lambda: (base.delta2tr(d)), lambda: (np.eye(4) + ref_hat(d)), 1.0, inp, tol=0.0)
+        # multi-valued receivers (a mixture of kinds)
+        Ss = [twist_of_kind(kd) for kd in TW_KINDS]
+        twm = Twist3([x.copy() for x in Ss])
+        allS = np.concatenate(Ss)
+        per_element('Twist3.se3', lambda: twm.se3(), [ref_hat(x) for x in Ss], 1e2, allS)
+        per_element('Twist3.ad', lambda: twm.ad(), [ref_ad(x) for x in Ss], 1e2, allS)
+        per_element('Twist3.Ad', lambda: twm.Ad(), [ref_Ad(ref_exp(x)) for x in Ss], 1e2, allS, tol=1e-7)
+        per_element('Twist3.SE3', lambda: [x.A for x in twm.SE3()], [ref_exp(x) for x in Ss], 1e2, allS, tol=1e-7)
+        per_element('Twist3.exp', lambda: [x.A for x in twm.exp()], [ref_exp(x) for x in Ss], 1e2, allS, tol=1e-7)
+        Ts = [pose_of_kind(kd) for kd in POSE_KINDS]
+        Xm = SE3([x.copy() for x in Ts], check=False)
+        allT = np.concatenate([x.flatten() for x in Ts])
+        per_element('SE3.Ad', lambda: Xm.Ad(), [ref_Ad(x) for x in Ts], 1e3, allT)
+        per_element('SE3.jacob', lambda: Xm.jacob(), [blkdiag(x[:3, :3].T, x[:3, :3].T) for x in Ts], 1.0, allT)
+        per_element('SE3.delta', lambda: Xm.delta(Xm), [np.zeros(6) for x in Ts], 1e3, allT)
+        per_element('SE3.inv', lambda: [x.A for x in Xm.inv()], [ref_inv(x) for x in Ts], 1e3, allT)
+
+    # ---------------- history and aliasing: call, scribble on the returned array, call again; change the receiver through
+    #                  the list interface / in place, call again -- always compared with the stateless reference on the
+    #                  receiver's CURRENT value
+    def history(key, make, call, ref, values):
+        """make(value) -> object; call(obj) -> array; ref(value) -> array.  values: two distinct values"""
+        va, vb = values
+        inp = np.r_[np.asarray(va, float).flatten(), np.asarray(vb, float).flatten()]
+        try:
+            obj = make(va.copy())
+            r1 = np.asarray(call(obj), float)
+            keep = r1.copy()
+            try:
+                np.asarray(call(obj))[...] = 12345.0          # the caller scribbles on what it got back
+            except (ValueError, TypeError):
+                pass
+            chk(f'{key}:after-writing-into-the-result', lambda: (call(obj)), lambda: (ref(va)), max(1.0, np.max(np.abs(keep))), inp, tol=1e-7)
+            chk(f'{key}:receiver-after-writing-into-the-result', lambda: (value_of(obj)), lambda: (va), 1.0, inp, tol=0.0)
+            obj[0] = make(vb.copy())                           # replace the element through the list interface
+            chk(f'{key}:after-setitem', lambda: (call(obj)), lambda: (ref(vb)), max(1.0, np.max(np.abs(ref(vb)))), inp, tol=1e-7)
+            obj2 = make(va.copy())
+            call(obj2)
+            value_of(obj2)[...] = vb                           # edit the stored value in place (.A / .S is the stored array)
+            chk(f'{key}:after-in-place-edit', lambda: (call(obj2)), lambda: (ref(vb)), max(1.0, np.max(np.abs(ref(vb)))), inp, tol=1e-7)
+            obj3 = make(va.copy())
+            call(obj3)
+            obj3.append(make(vb.copy()))
+            obj3.pop(0)                                        # now single-valued again, holding vb
+            chk(f'{key}:after-append-pop', lambda: (call(obj3)), lambda: (ref(vb)), max(1.0, np.max(np.abs(ref(vb)))), inp, tol=1e-7)
+            obj4 = make(va.copy())
+            c1 = call(obj4)
+            c2 = call(obj4)
+            ctx.case(('alias', key, tuple(inp[:12])))
+            ctx.count(f'oracle:{key}:fresh-result')
+            if isinstance(c1, np.ndarray) and isinstance(c2, np.ndarray) and np.shares_memory(c1, c2):
+                ctx.fail(f'oracle:{key}:result-aliased', f"{key}: two calls return arrays that share memory (writing into one result changes the other)",
+                         {'inputs_hex': hexl(inp)})
+        except Exception as ex:  # noqa
+            ctx.fail(f'oracle:{key}:history:raises:{exc_kind(ex)}', f"{key} history check raises {type(ex).__name__}: {ex}", {'inputs_hex': hexl(inp)})
+
+    def value_of(obj):
+        return obj.A if isinstance(obj, SE3) else obj.S
+
+    mkX = lambda T: SE3(T, check=False)
+    for k in range(ctx.n(10, 200)):
+        Ta, Tb = rand_se3(rng, 1e-3, 1e2), rand_se3(rng, 1e-3, 1e2)
+        Tc = rand_se3(rng, 1e-3, 1e2)
+        history('SE3.Ad', mkX, lambda X: X.Ad(), ref_Ad, (Ta, Tb))
+        history('SE3.jacob', mkX, lambda X: X.jacob(), lambda T: blkdiag(T[:3, :3].T, T[:3, :3].T), (Ta, Tb))
+        history('SE3.inv', mkX, lambda X: X.inv().A, ref_inv, (Ta, Tb))
+        history('SE3.delta', mkX, lambda X: X.delta(SE3(Tc, check=False)), lambda T: ref_tr2delta(ref_inv(T) @ Tc), (Ta, Tb))
+        Sa, Sb = twist_of_kind('general'), twist_of_kind('prismatic' if k % 2 else 'revolute')
+        history('Twist3.ad', lambda S: Twist3(S), lambda t_: t_.ad(), ref_ad, (Sa, Sb))
+        history('Twist3.Ad', lambda S: Twist3(S), lambda t_: t_.Ad(), lambda S: ref_Ad(ref_exp(S)), (Sa, Sb))
+        history('Twist3.se3', lambda S: Twist3(S), lambda t_: t_.se3(), ref_hat, (Sa, Sb))
+        history('Twist3.SE3', lambda S: Twist3(S), lambda t_: t_.SE3().A, ref_exp, (Sa, Sb))
+
     # ---------------- adjoint of a rotation, SE3.jacob (repaired in /repo: a raise or a wrong value is a violation again)
     for k in range(ctx.n(5, 50)):
         Rm, T = rand_rot(rng), rand_se3(rng, 1e-3, 1e3)
@@ -584,7 +769,7 @@ def run(ctx):
         with ctx.timed('oracle'):
             oracle(ctx)
         return
-    files = ['C13_maps.v', 'C13_adjoint.v', 'C13_delta.v', 'C13_log.v', 'C13_Delta.v']
+    files = ['C13_maps.v', 'C13_adjoint.v', 'C13_delta.v', 'C13_log.v', 'C13_kinds.v', 'C13_Delta.v']
     if ctx.thorough:
         files.append('C13_extra.v')
     for f in files:
